@@ -22,7 +22,8 @@ RULE = (
 )
 ASSUMPTIONS = [
     "regular parameter regions and data magnitudes as stated in the property's quantifier; nothing is claimed about global optimality beyond the alternatives tried (start, truth, scaled fit)",
-    "ridge families (exponentiated Weibull, generalised gamma, 3-parameter Weibull, scipy subclasses) are compared through the fitted law, not parameter by parameter",
+    "ridge families (exponentiated Weibull, generalised gamma, 3-parameter Weibull, scipy subclasses) are compared through the fitted law, not parameter by parameter: per-observation log-likelihood shift within 1e-2 of ln c and quantile ratio within 5e-2 on p in [0.01, 0.99] ('optimiser tolerance' of Nelder-Mead on flat ridges, calibrated on the unchanged tree where both fits individually beat the generating parameters)",
+    "known findings of this property are statistical (optimiser start/stall); their incidence is guarded by RATE_LIMITS so that a change that makes them much more frequent is still a violation",
 ]
 
 REGULAR = {
@@ -76,13 +77,17 @@ def check_mle(case, ctx):
         ctx.cls("skipped:magnitude")
         return
     start = case["start"]
-    ctx.cls(f"family={f}", f"start={'default' if start is None else 'user'}")
+    sk = "default" if start is None else "user"
+    ctx.cls(f"family={f}", f"start={sk}")
     d = make(f, start)
-    ll_start = loglik(d, x)
+    try:
+        ll_start = loglik(d, x)
+    except ZeroDivisionError:  # LogNormalNormFit's defaults (mu_norm=0) are not a distribution
+        ll_start = -math.inf
     try:
         d.fit(x)
     except Exception as e:  # noqa: BLE001
-        ctx.violation(f"fit_raises:{f}:{type(e).__name__}", f"truth={truth} n={n} seed={case['seed']} start={start}: {str(e)[:200]}")
+        ctx.violation(f"fit_raises:{f}:{type(e).__name__}" + f":{sk}_start", f"truth={truth} n={n} seed={case['seed']} start={start}: {str(e)[:200]}")
         return
     p = {k: float(v) for k, v in d.parameters.items()}
     tag = f"family={f} truth={truth} n={n} seed={case['seed']} start={start or 'default'} fitted={p}"
@@ -96,12 +101,12 @@ def check_mle(case, ctx):
     ctx.nontrivial(math.isfinite(ll_start) and ll_fit - ll_start > 1 or not math.isfinite(ll_start))
     gfree = f == "Weibull"
     if not math.isfinite(ll_fit):
-        ctx.violation(f"ll_nonfinite:{f}" + (":gamma_free" if gfree else ""), f"{tag}: ll(fit)={ll_fit!r} ll(truth)={ll_truth!r}")
+        ctx.violation(f"ll_nonfinite:{f}" + (":gamma_free" if gfree else "") + f":{sk}_start", f"{tag}: ll(fit)={ll_fit!r} ll(truth)={ll_truth!r}")
         return
     if math.isfinite(ll_start) and ll_fit < ll_start - tau:
-        ctx.violation(f"ll_below_start:{f}" + (":gamma_free" if gfree else ""), f"{tag}: ll(fit)={ll_fit!r} < ll(start)={ll_start!r}")
+        ctx.violation(f"ll_below_start:{f}" + (":gamma_free" if gfree else "") + f":{sk}_start", f"{tag}: ll(fit)={ll_fit!r} < ll(start)={ll_start!r}")
     if ll_fit < ll_truth - tau:
-        ctx.violation(f"ll_below_truth:{f}" + (":gamma_free" if gfree else ""), f"{tag}: ll(fit)={ll_fit!r} < ll(truth)={ll_truth!r} (deficit {ll_truth - ll_fit:.4g})")
+        ctx.violation(f"ll_below_truth:{f}" + (":gamma_free" if gfree else "") + f":{sk}_start", f"{tag}: ll(fit)={ll_fit!r} < ll(truth)={ll_truth!r} (deficit {ll_truth - ll_fit:.4g})")
         return  # an unconverged fit says nothing about equivariance
     # scale equivariance
     if f == "VonMises":
@@ -118,7 +123,7 @@ def check_mle(case, ctx):
         # the scaled fit itself did not converge: reported by the likelihood oracles on its own draw
         ctx.cls("scaled_fit_unconverged")
         if math.isfinite(ll2) is False or ll2 < (ll_truth - n * math.log(c)) - tau:
-            ctx.violation(f"ll_below_truth_scaled:{f}" + (":gamma_free" if gfree else ""), f"{tag} scale={c}: ll(fit of c*x)={ll2!r} < ll(truth)={ll_truth - n * math.log(c)!r}")
+            ctx.violation(f"ll_below_truth_scaled:{f}" + (":gamma_free" if gfree else "") + f":{sk}_start", f"{tag} scale={c}: ll(fit of c*x)={ll2!r} < ll(truth)={ll_truth - n * math.log(c)!r}")
         return
     if f in CLOSED:
         rt = CLOSED[f]
@@ -137,20 +142,27 @@ def check_mle(case, ctx):
                 ctx.violation(f"equivariance:{f}:{k}", f"{tag} scale={c}: fitted to c*x {p2}, expected {k}={v!r}")
                 return
     else:
+        # families with a free location and shape <= 1 have an unbounded likelihood (the optimiser climbs the
+        # singularity at min(x) to an arbitrary height): equivariance of "the" estimate is only defined in the
+        # regular regime
+        shape_key = {"Weibull": "beta", "ScipyGamma": "a"}.get(f)
+        if shape_key and not (truth[shape_key] >= 1.5 and p[shape_key] >= 1.2 and p2[shape_key] >= 1.2):
+            ctx.cls("equivariance_skipped:nonregular_location_mle")
+            return
         # through the fitted law
-        if abs(ll2 / n - ll_fit / n + math.log(c)) > 1e-4:
-            ctx.violation(f"equivariance_ll:{f}", f"{tag} scale={c}: ll/n {ll_fit / n!r} vs scaled {ll2 / n!r} + ln c = {ll2 / n + math.log(c)!r}")
+        if abs(ll2 / n - ll_fit / n + math.log(c)) > 1e-2:
+            ctx.violation(f"equivariance_ll:{f}" + f":{sk}_start", f"{tag} scale={c}: ll/n {ll_fit / n!r} vs scaled {ll2 / n!r} + ln c = {ll2 / n + math.log(c)!r}")
             return
         q = np.linspace(0.01, 0.99, 50)
         Q1 = np.asarray(d.icdf(q), dtype=float)
         Q2 = np.asarray(d2.icdf(q), dtype=float)
         with np.errstate(all="ignore"):
             ratio = np.abs(Q2 / (c * Q1) - 1)
-        ok = ratio <= 1e-2
-        ok |= np.abs(Q2 - c * Q1) <= 1e-2 * c * med
+        ok = ratio <= 5e-2
+        ok |= np.abs(Q2 - c * Q1) <= 5e-2 * c * med
         if not ok.all():
             i = int(np.argmin(ok))
-            ctx.violation(f"equivariance_quantile:{f}", f"{tag} scale={c}: Q_c({q[i]:.2f})={Q2[i]!r} vs c*Q={c * Q1[i]!r} (fitted to c*x: {p2})")
+            ctx.violation(f"equivariance_quantile:{f}" + f":{sk}_start", f"{tag} scale={c}: Q_c({q[i]:.2f})={Q2[i]!r} vs c*Q={c * Q1[i]!r} (fitted to c*x: {p2})")
 
 
 def strat_mle(tier):
@@ -174,6 +186,17 @@ def strat_mle(tier):
 
     return s()
 
+
+# (signature prefix, class whose count is the denominator, max fraction, min denominator)
+RATE_LIMITS = [
+    ("ll_below_truth:Weibull:gamma_free", "mle/family=Weibull", 0.20, 40),
+    ("ll_below_truth_scaled:Weibull:gamma_free", "mle/family=Weibull", 0.20, 40),
+    ("ll_below_truth:ScipyGamma", "mle/family=ScipyGamma", 0.12, 40),
+    ("ll_below_truth_scaled:ScipyGamma", "mle/family=ScipyGamma", 0.20, 40),
+    ("ll_below_truth:GeneralizedGamma:user_start", "mle/family=GeneralizedGamma", 0.08, 40),
+    ("ll_below_truth_scaled:GeneralizedGamma:user_start", "mle/family=GeneralizedGamma", 0.08, 40),
+    ("ll_below_truth:LogNormalNormFit", "mle/family=LogNormalNormFit", 0.30, 40),
+]
 
 PARTS = [
     Part("mle", check_mle, strat_mle, quick=1200, thorough=30000, shrink_quick=False, min_nontrivial_frac=0.3),
